@@ -5,6 +5,7 @@ from __future__ import annotations
 import math
 
 from tools.lib import common
+from tools.corr import C12_factor as fhist
 from tools.corr import C12_history as hist
 from tools.props import C11 as c11
 from tools.translate import c11_ext as X
@@ -460,6 +461,8 @@ def search(chk: common.Check, rng, n: int, tier: str):  # noqa: C901, PLR0912, P
     _ = np
     # ---- histories: purity of __call__ on one builder object (fresh and module-level objects)
     bad += hist.purity_oracle(chk, rng, 40 if tier == "quick" else 400)
+    # histories with the phase-space FACTOR OBJECT as part of the call (identity, hand calculation, fresh process)
+    bad += fhist.oracle(chk, rng, tier)
     # numbers vs symbols (int / Integer / symbolic L), exact pole, defaults, protocol implementations,
     # compound arguments / generated code (notes/HARDENING.md)
     from tools.search import C12_exact
@@ -490,6 +493,7 @@ class _Prop(X.TypedT1Property):
 def _history_tie(chk, ctx):
     """T2: call histories on real builder objects vs the Lean state machine (Model/C12Builder.lean)."""
     hist.run_correspondence(chk, ctx["rng"], 60 if ctx["tier"] == "quick" else 600)
+    fhist.run_correspondence(chk, ctx["rng"], ctx["tier"])
 
 
 KNOWN_CLASS = "symbolic-L Hankel path vs integer-L polynomial path, z <= 0"
@@ -502,6 +506,18 @@ def signature_of(f):
     return sig
 
 
+def replay(data: dict) -> int:
+    """./check C12 --replay FILE: factor-object history findings are re-run in new interpreters."""
+    import json
+
+    case = (data.get("replay") or data).get("input", {})
+    if isinstance(case, dict) and case.get("factor_history_replay"):
+        common.use_repo_source()
+        return fhist.replay_history(case["factor_history_replay"])
+    print(json.dumps(data, indent=1, default=str))
+    return 0
+
+
 PROP = _Prop(
     prop_id="C12",
     sources=SOURCES,
@@ -509,7 +525,7 @@ PROP = _Prop(
     build_definitions=build_definitions,
     points=points,
     search=search,
-    prop_modules=["Ampverif.Props.C12"],
+    prop_modules=["Ampverif.Props.C12", "Ampverif.Props.C12Factor"],
     n_points={"quick": 24, "thorough": 120},
     n_search={"quick": 120, "thorough": 1500},
     extra_imports=("Ampverif.Lemmas.C12Table",),
@@ -518,6 +534,8 @@ PROP = _Prop(
     signature_of=signature_of,
     trusted=("history tie: the canonicaliser of tools/corr/C12_history.py (structural equality with the public "
              "function API decides which lineshape a builder result is)",
+             "factor-history tie: the skeleton reader of tools/corr/C12_factor.py (tree traversal for EnergyDependentWidth / "
+             "FormFactor nodes, factor objects by identity); the cache model Model/C12Factor.lean is hand-written (about 30 lines of logic)",
              "the Blatt-Weisskopf table (c_L, denominator coefficients) is extracted with SymPy's Poly and re-proved "
              "equal to the syntactically translated polynomial path by the kernel (bw_L_eq_table)",),
 )
@@ -550,7 +568,22 @@ MANIFEST = {
         "angular momentum returns the plain Breit-Wigner for the plain builder and raises otherwise (builder_call_none; pinned on the "
         "tree as facts), plus a kernel-checked witness history for the defect class 'a call stores a fallback on the instance'. The "
         "model is tied to the real class by a history correspondence on every run (60 / 600 seeded histories mixing L = None, 0, 1, 2, "
-        "five resonances, two pools, fresh builders of all flag x phase-space combinations and the three module-level builder objects)."
+        "five resonances, two pools, fresh builders of all flag x phase-space combinations and the three module-level builder objects). "
+        "Factor-object histories (Model/C12Factor.lean, Props/C12Factor.lean, tools/corr/C12_factor.py): the phase-space factor OBJECT is part "
+        "of the call; the builder (four flag combinations, new / re-used / module-level objects), relativistic_breit_wigner_with_ff and "
+        "EnergyDependentWidth are modelled as calls that consult a process-global constructor cache keyed on (resonance, pool, L, "
+        "key(factor object)); proved for EVERY key function that is injective on factor objects and every history: each call returns what "
+        "a fresh process returns for its (resonance, variables, L, factor object) and its width carries exactly the object passed "
+        "(factor_history_pure, factor_call_k, factor_history_honours), with kernel-checked witnesses that the key 'qualified name' "
+        "(two lambdas of one scope, two closures of one factory) breaks this, also across APIs (qualname_key_witness, "
+        "qualname_key_dishonours, qualname_key_crosses_apis). Tied on every run by one in-process history (~130 quick / ~570 thorough "
+        "calls; 82 factor objects with 17 qualified names: library classes, named functions, lambdas of one scope, closures of one factory, "
+        "functools.partial, callable instances, bound methods of two instances; real, imaginary-below-threshold and complex conventions) "
+        "compared call by call with the model (shape, resonance, pool, L, identity of the carried factor object); the oracle checks for "
+        "EVERY call: (a) phsp_factor of every width IS the passed object, (b) value at 5 energies incl. below threshold = hand calculation "
+        "in plain complex arithmetic with the passed object, and (c) for 16 / 70 selected calls = the same call as the only call of a "
+        "fresh interpreter. Two CLASSES of one qualified name (confused by the unchanged library: known finding of C10) are run as an "
+        "observation only."
     ),
     "level_note": (
         "Trusted: Lean kernel + Mathlib (axioms propext, Classical.choice, Quot.sound; thorough tier re-checks with leanchecker); the "
